@@ -78,7 +78,7 @@ def _cases(draw, tier):
     glo, ghi = isa.zones['GLOBAL']
     address = draw(st.integers(glo + 64, ghi - 300))
     consts = {'kval': draw(st.integers(0, 3000))}
-    keyconsts = {k: draw(st.integers(0, 3)) for k in sorted(keys_in_use) if draw(st.booleans())}
+    keyconsts = {k: draw(st.integers(0, 3)) for k in sorted(keys_in_use) if k.isidentifier() and draw(st.booleans())}
     place = {'address': address, 'consts': consts, 'zones': isa.zones, 'size_hint': 4}
     ops = []
     for aid, alt in alts:
@@ -88,7 +88,7 @@ def _cases(draw, tier):
         if o is None:
             return {'skip': 'no operand value satisfies the constraints', 'isa': cfg}
         ops.append(o)
-    perturb = draw(st.sampled_from(['none', 'none', 'none', 'reg', 'drop', 'add', 'keylabel', 'keylabel']))
+    perturb = draw(st.sampled_from(['none', 'none', 'none', 'reg', 'drop', 'add', 'keylabel', 'keylabel', 'keyplus', 'keyplus']))
     regs = isa.registers
     if perturb == 'reg' and ops and regs:
         i = draw(st.integers(0, len(ops) - 1))
@@ -97,12 +97,21 @@ def _cases(draw, tier):
         ops.pop(draw(st.integers(0, len(ops) - 1)))
     elif perturb == 'add':
         ops.insert(draw(st.integers(0, len(ops))), {'k': 'expr', 'e': ['num', draw(st.integers(0, 9)), 'dec']})
+    elif perturb == 'keyplus' and ops and keys_in_use:
+        # an enumeration key followed by more text is an expression over a label of that name, not the key
+        idxs = [i for i, o in enumerate(ops) if o['k'] in ('expr', 'enum')]
+        idents = sorted(k for k in keys_in_use if k.isidentifier())
+        if idxs and idents:
+            i = draw(st.sampled_from(idxs))
+            key = ops[i]['key'] if ops[i]['k'] == 'enum' and ops[i]['key'].isidentifier() else draw(st.sampled_from(idents))
+            ops[i] = {'k': 'expr', 'e': ['bin', draw(st.sampled_from(['+', '-', '|'])), ['lab', key], ['num', draw(st.integers(0, 3)), 'dec']]}
     elif perturb == 'keylabel' and ops and keys_in_use:
         idxs = [i for i, o in enumerate(ops) if o['k'] in ('expr', 'enum') or
                 (o['k'] in ('idxreg', 'indidx') and o['idx']['k'] in ('expr', 'enum'))]
-        if idxs:
+        idents = sorted(k for k in keys_in_use if k.isidentifier())
+        if idxs and idents:
             i = draw(st.sampled_from(idxs))
-            key_as_label = {'k': 'expr', 'e': ['lab', draw(st.sampled_from(sorted(keys_in_use)))]}
+            key_as_label = {'k': 'expr', 'e': ['lab', draw(st.sampled_from(idents))]}
             if ops[i]['k'] in ('idxreg', 'indidx'):
                 ops[i] = dict(ops[i], idx=key_as_label)
             else:
